@@ -147,9 +147,24 @@ def enc(vocab, t):
 _MATCH_CACHE = {}
 
 
+def _matcher():
+    """the geometry matcher the detection task uses (found by introspection, so that a rename of the
+    function does not stop the check)"""
+    import importlib
+    det = importlib.import_module("soundevent.evaluation.tasks.sound_event_detection")
+    mod = importlib.import_module("soundevent.evaluation.match")
+    f = getattr(det, "match_geometries", None) or getattr(mod, "match_geometries", None)
+    if f is None:
+        cands = [v for v in vars(det).values() if callable(v) and getattr(v, "__module__", None) == mod.__name__]
+        if len(cands) != 1:
+            raise AttributeError("cannot identify the geometry matcher used by sound_event_detection")
+        f = cands[0]
+    return f
+
+
 def matcher_answer(pred_events, ann_events):
     """the real matcher on the filtered geometry lists, as the code calls it"""
-    from soundevent.evaluation.match import match_geometries
+    match_geometries = _matcher()
     key = (tuple(tuple(e["geom"]) for e in pred_events if e["geom"] is not None),
            tuple(tuple(e["geom"]) for e in ann_events if e["geom"] is not None))
     if key in _MATCH_CACHE:
